@@ -727,10 +727,11 @@ def _round_trip_tables(ctx: Ctx):
         raise AnalysisError("C11: write_trn / read_trn_iter not found")
     trs = [("u1", ["hello", "world"]), ("u 2", [("a", 0.5, 1.0), "b"]), ("u3", ["x", ([["y"], ["z", "w"]], -1, -1), "v"]),
            ("u4", [([["p", [["q"], ["r"]]], ["s"]], -1, -1)]), ("u5", []), ("u6", [("c", 1, 2), ([["d"], ["e"]], -1, -1)]),
-           (" c ", ["f"]), ("spk1 ", ["g"]), ("spk1", ["h"])]  # (blanks are part of an utterance id)
+           (" c ", ["f"]), ("spk1 ", ["g"]), ("spk1", ["h"]),  # (blanks are part of an utterance id)
+           ("u7", ["km/h", ([["d"], ["e"]], -1, -1), "and/or", "/"])]  # (a slash is an ordinary character outside an alternate - also after one)
     want = [("u1", ["hello", "world"]), ("u 2", ["a", "b"]), ("u3", ["x", ([["y"], ["z", "w"]], -1, -1), "v"]),
             ("u4", [([["p", [["q"], ["r"]]], ["s"]], -1, -1)]), ("u5", []), ("u6", ["c", ([["d"], ["e"]], -1, -1)]),
-            (" c ", ["f"]), ("spk1 ", ["g"]), ("spk1", ["h"])]
+            (" c ", ["f"]), ("spk1 ", ["g"]), ("spk1", ["h"]), ("u7", ["km/h", ([["d"], ["e"]], -1, -1), "and/or", "/"])]
     try:
         text, err = written(wt, {wt.args.args[0].arg: trs})
         got = None
